@@ -354,6 +354,13 @@ func (g *cgen) setOp(mixed bool) (ContOp, bool) {
 	case 8:
 		g.typ[z] = "set"
 		op := []string{"|", "&", "-", "^"}[r.Intn(4)]
+		if r.Chance(1, 4) {
+			y = x // the same object on both sides
+		}
+		if r.Chance(1, 4) {
+			// the result must be a new object: mutate it right away
+			return st("set.binop-then-add", fmt.Sprintf("%s = %s %s %s\n%s.add(%s)", a(z), x, op, y, a(z), g.scalar(false)))
+		}
 		return st("set.binop", fmt.Sprintf("%s = %s %s %s", a(z), x, op, y))
 	case 9:
 		return st("set.update|alias", fmt.Sprintf("%s.update(%s)", x, y))
